@@ -99,6 +99,11 @@ def cases(tier: str, seed: int) -> list[dict]:
                     out.append({"load": load, "sim": sim, "et": et, "dim": dim, "form": ["const", "array", "callable"][(k + r) % 3], "sel": "dup"})
                 if load in ("line", "surf") and (k + r) % 2 == 0:
                     out.append({"load": load, "sim": sim, "et": et, "dim": dim, "form": ["const", "array", "callable"][(k + r) % 3], "sel": "bulk"})
+        # the whole boundary of a 2-D mesh as loaded region (a closed contour: as many boundary elements as nodes on linear meshes)
+        for j, et in enumerate(["TRI3", "QUAD4", "TRI6", "QUAD8"]):
+            for load in ("line", "surf"):
+                out.append({"load": load, "sim": ["elastic", "thermal", "phasefield", "hyperelastic"][(j + r + (load == "surf")) % 4], "et": et, "dim": 2,
+                            "form": ["array", "const", "callable"][(j + r + (load == "surf")) % 3] if et != "TRI3" else "array", "sel": "closed"})
         # loads on the curved boundary of a hole (elements of order >= 2): a pressure on a closed boundary has no resultant and no moment
         # about any point, a body force integrates to intensity x measure of the curved domain
         for j, et in enumerate([e for e in gm.ET_2D + gm.ET_3D if gm.ORDER[e] >= 2]):
@@ -288,6 +293,17 @@ def run_case(case: dict, ctx: Ctx) -> None:
     else:
         raise ValueError(load)
 
+    if sel == "closed":
+        region = np.zeros(mesh.Nn, bool)
+        for k_ in range(len(poly)):
+            region |= on_edge(k_)
+        region &= usedmask
+
+        def exact(fterms, mom_weight=None):  # noqa: F811
+            def f(P):
+                v = eval_density(fterms, P[:, 0], P[:, 1], P[:, 2])
+                return v if mom_weight is None else v * mom_weight(P)
+            return sum(gl_segment(np.array([*poly[k_], 0.0]), np.array([*poly[(k_ + 1) % len(poly)], 0.0]), f) for k_ in range(len(poly)))
     nodes = np.where(region)[0]
     sel_nodes = nodes
     if sel == "stray":
